@@ -7,6 +7,8 @@ let () =
   let handler = match sub with
     | "runner" -> H_runner.runner_case
     | "mocks" -> H_mocks.mocks_case
+    | "constraints" -> H_constraints.constraints_case
+    | "format" -> H_format.format_case
     | _ -> failwith ("unknown model " ^ sub) in
   (try
     while true do
